@@ -14,6 +14,11 @@
    The deviations that the pinned tree had are named constants:
      ReleaseOnEveryExit = FALSE   only the normal end of a loop released its slot
      FallBackWhenFull   = FALSE   the 9th integer binding panicked instead of using a variable
+     WriteBackOnExit    = FALSE   the loop variable, a variable of the program, stayed unbound after a loop that kept it
+                                  in a register (without registers it holds the last value)
+     WriteBackOnPanic   = FALSE   the same when the loop is left by a panic that the REPL recovers (the write back was
+                                  skipped while a panic unwinds: it used the environment of whatever panicked)
+   (SameBindings: `lost` counts the loop variables that a run without registers leaves bound and this run does not.)
    With both TRUE (the code after the `fix:` commit) the invariants hold; with either FALSE
    TLC produces the panics seen on the real interpreter.
 
@@ -26,23 +31,24 @@ CONSTANTS NumRegisters,        \* 8 in the code
           ParamChoices,        \* numbers of integer parameters explored
           MaxDepth,            \* maximal loop nesting + call nesting explored
           MaxOps,              \* bound on the length of a behaviour
-          ReleaseOnEveryExit, FallBackWhenFull,
+          ReleaseOnEveryExit, FallBackWhenFull, WriteBackOnExit, WriteBackOnPanic,
           EmitOn
 
 VARIABLES envs,    \* stack of environments: [params |-> slots held by parameters, numReg |-> Nat]
           loops,   \* stack of active loops: [env |-> index in envs, slot |-> slot index or -1 (variable)]
           status,  \* "ok" | "panic-full" | "panic-nonlast"
+          lost,    \* loop variables left unbound where the run without registers binds them
           hist     \* operations so far
-vars == <<envs, loops, status, hist>>
+vars == <<envs, loops, status, lost, hist>>
 \* one witness per abstract state AND per set of exit kinds / last operation used, so that every kind of exit appears
 \* in the middle of emitted schedules, not only at their end
 UsedKinds == {hist[i].kind : i \in {j \in 1..Len(hist) : hist[j].op = "exit"}}
 LastOp == IF hist = <<>> THEN "none" ELSE hist[Len(hist)].op
-view == <<envs, loops, status, Len(hist), UsedKinds, LastOp>>
+view == <<envs, loops, status, lost, Len(hist), UsedKinds, LastOp>>
 
 Top == [params |-> 0, numReg |-> 0]
 
-Init == envs = <<Top>> /\ loops = <<>> /\ status = "ok" /\ hist = <<>>
+Init == envs = <<Top>> /\ loops = <<>> /\ status = "ok" /\ lost = 0 /\ hist = <<>>
 
 CurEnv == Len(envs)
 Depth  == Len(envs) - 1 + Len(loops)
@@ -55,6 +61,7 @@ Call(k) ==
      IF k > NumRegisters /\ ~FallBackWhenFull
      THEN status' = "panic-full" /\ UNCHANGED <<envs, loops>>
      ELSE envs' = Append(envs, [params |-> take, numReg |-> take]) /\ UNCHANGED <<loops, status>>
+  /\ UNCHANGED lost
   /\ Log([op |-> "call", k |-> k])
 
 \* enter a counted loop; reg = FALSE models an unnamed loop or a body that forbids a register
@@ -69,6 +76,7 @@ Enter(reg) ==
      ELSE IF FallBackWhenFull
      THEN loops' = Append(loops, [env |-> CurEnv, slot |-> -1]) /\ UNCHANGED <<envs, status>>
      ELSE status' = "panic-full" /\ UNCHANGED <<envs, loops>>
+  /\ UNCHANGED lost
   /\ Log([op |-> "enter", reg |-> reg])
 
 \* release the slot of the innermost loop of the current environment
@@ -86,6 +94,7 @@ ExitLoop(kind) ==
          r == IF kind = "end" \/ ReleaseOnEveryExit THEN Release(l, envs) ELSE <<envs, "ok">>
      IN /\ envs' = r[1] /\ status' = r[2]
         /\ loops' = SubSeq(loops, 1, Len(loops) - 1)
+        /\ lost' = IF l.slot >= 0 /\ ~WriteBackOnExit THEN lost + 1 ELSE lost    \* (the variable is read after the loop)
   /\ Log([op |-> "exit", kind |-> kind])
 
 \* unwind all loops of the current environment innermost first (return from a function, error at top level)
@@ -102,6 +111,7 @@ Return ==
   /\ LET u == Unwind(loops, envs, CurEnv) IN
      /\ loops' = u[1] /\ status' = u[3]
      /\ envs' = IF u[3] = "ok" THEN SubSeq(u[2], 1, CurEnv - 1) ELSE u[2]
+  /\ UNCHANGED lost      \* (the variables of the dropped environment go with it)
   /\ Log([op |-> "return"])
 
 \* a language error: every active function and loop is left at once; the session goes on at top level
@@ -111,7 +121,18 @@ ErrorOut ==
          \* function environments are dropped wholesale; only the top-level environment survives
          u == Unwind(topLoops, <<envs[1]>>, 1)
      IN /\ loops' = <<>> /\ envs' = u[2] /\ status' = u[3]
+        /\ lost' = IF WriteBackOnExit THEN lost ELSE lost + Len(SelectSeq(topLoops, LAMBDA l : l.slot >= 0))
   /\ Log([op |-> "error"])
+
+\* a panic (depth limit, refused allocation) recovered by the REPL: like ErrorOut, but the unwinding runs the deferred
+\* steps of every loop while the evaluator still points at the environment that panicked
+PanicOut ==
+  /\ status = "ok" /\ (Len(loops) > 0 \/ CurEnv > 1) /\ ~EmitOn      \* (replayed by the pinned sessions of c05.go, section 3c)
+  /\ LET topLoops == SelectSeq(loops, LAMBDA l : l.env = 1)
+         u == Unwind(topLoops, <<envs[1]>>, 1)
+     IN /\ loops' = <<>> /\ envs' = u[2] /\ status' = u[3]
+        /\ lost' = IF WriteBackOnExit /\ WriteBackOnPanic THEN lost ELSE lost + Len(SelectSeq(topLoops, LAMBDA l : l.slot >= 0))
+  /\ Log([op |-> "panic"])
 
 Emit == EmitOn => EmitLine(ToJson([h |-> hist']))
 
@@ -123,6 +144,7 @@ Next ==
      \/ \E kind \in {"end", "break", "caught"} : ExitLoop(kind)   \* "caught": an error raised in the loop body, caught by catch() just outside the loop
      \/ Return
      \/ ErrorOut
+     \/ PanicOut
   /\ (AtTop(envs', loops') /\ Len(hist') > 1) => Emit
 
 Spec == Init /\ [][Next]_vars
@@ -137,5 +159,6 @@ SlotsAreAStack ==
     \A j \in 1..Len(loops) : loops[j].slot >= 0 =>
       loops[j].slot = envs[loops[j].env].params
                       + Cardinality({k \in 1..(j - 1) : loops[k].env = loops[j].env /\ loops[k].slot >= 0})
+SameBindings == lost = 0
 Bounded == \A i \in 1..Len(envs) : envs[i].numReg <= NumRegisters
 =============================================================================
